@@ -147,8 +147,8 @@ def gen_cases(ctx):
     for el, verts in [("TETRA4", tet), ("TETRA10", tet), ("HEXA8", ppd), ("HEXA20", ppd), ("HEXA27", ppd), ("PRISM6", pri), ("PRISM15", pri), ("PRISM18", pri)]:
         ms = [m for m in motions(rng, 3)]
         cases.append({"kind": "faces", "elem": el, "verts": verts, "motions": ms})
-    if thorough:
-        for el in ("TETRA4", "HEXA8", "PRISM6", "TETRA10", "HEXA20", "PRISM15"):
+    for el in (("TETRA4", "HEXA8", "PRISM6", "TETRA10", "HEXA20", "PRISM15") if thorough else ("TETRA4", "PRISM6")):
+        if True:
             cases.append({"kind": "faces", "gmsh": True, "elem": el, "poly": star_polygon(rng, False), "h": 1.8, "ext": 1.5, "layers": 2, "motions": motions(rng, 3)})
     for el, verts in [("TETRA4", tet), ("HEXA8", ppd), ("PRISM6", pri), ("PRISM15", pri)] + ([("TETRA10", tet), ("HEXA20", ppd), ("HEXA27", ppd), ("PRISM18", pri)] if thorough else []):
         cases.append({"kind": "outside", "elem": el, "verts": verts, "seed": 1, "xi_out": outs[fam(el)]})
@@ -252,23 +252,34 @@ def run(ctx):
     # ---- 2. Coq ------------------------------------------------------------------------------
     proofs = {}
     if dump is not None:
-        ctx.copy_props("C08/C08_defs.v", "C08/C08_faces.v", "C08/C08_measure.v", "C08/C08_invmap.v", "C08/C08_pointin.v", "C08/C08_eval.v",
-                       "C08/C08_cur_invmap.v", "C08/C08_cur_pointin.v")
+        ctx.copy_props("C08/C08_defs.v", "C08/C08_faces.v", "C08/C08_measure.v", "C08/C08_subparam.v", "C08/C08_invmap.v", "C08/C08_pointin.v",
+                       "C08/C08_pointin2d.v", "C08/C08_eval.v", "C08/C08_conform.v", "C08/C08_cur_invmap.v", "C08/C08_cur_pointin.v", "C08/C08_measure_thorough.v")
         r0 = ctx.coq(["C08_defs.v", "Gen_Elems.v", "Gen_Gauss.v", "Gen_Faces.v"], timeout=300, count=False)
         if not r0.ok:
             ctx.obligation("generated files compile", False, r0.log[-1500:])
             ctx.violation("gen-compile", "generated Coq tables do not compile", {"log": r0.log[-3000:]}, found_input=False)
         else:
-            for f in ["C08_faces.v", "C08_invmap.v", "C08_pointin.v"]:
-                proofs[f] = ctx.coq([f], timeout=600)
-            proofs["C08_measure.v"] = ctx.coq(["C08_measure.v"], timeout=900) if proofs["C08_faces.v"].ok else None
-            proofs["C08_eval.v"] = ctx.coq(["C08_eval.v"], timeout=600) if proofs["C08_invmap.v"].ok else None
-            # statements about the source AS FOUND: only when the corresponding reader recognised the source
-            # (otherwise the `translate:<reader>` violation already says that the property is not shown)
-            if evr is not None:
-                proofs["C08_cur_invmap.v"] = ctx.coq(["C08_cur_invmap.v"], timeout=300) if proofs["C08_invmap.v"].ok else None
-            if pir is not None:
-                proofs["C08_cur_pointin.v"] = ctx.coq(["C08_cur_pointin.v"], timeout=300) if proofs["C08_pointin.v"].ok else None
+            # two independent dependency chains, compiled side by side (2 cores)
+            def chain(files):
+                prev_ok = True
+                for f, need in files:
+                    if need is not None and not (proofs.get(need) is not None and proofs[need].ok):
+                        proofs[f] = None
+                        continue
+                    proofs[f] = ctx.coq([f], timeout=1500 if "thorough" in f else 900)
+            # statements about the source AS FOUND (C08_cur_*): only when the corresponding reader recognised the
+            # source (otherwise the `translate:<reader>` violation already says that the property is not shown)
+            chain_a = [("C08_faces.v", None), ("C08_measure.v", "C08_faces.v"), ("C08_subparam.v", "C08_measure.v")]
+            chain_b = [("C08_invmap.v", None), ("C08_eval.v", "C08_invmap.v")] + ([("C08_cur_invmap.v", "C08_invmap.v")] if evr is not None else []) + \
+                      [("C08_pointin.v", None)] + ([("C08_cur_pointin.v", "C08_pointin.v")] if pir is not None else []) + \
+                      [("C08_pointin2d.v", "C08_pointin.v"), ("C08_conform.v", None)]
+            from concurrent.futures import ThreadPoolExecutor
+            chains = [chain_a, chain_b]
+            if ctx.tier == "thorough":
+                # general (non-affine) straight-sided hexahedra / prisms, 24 / 18 symbolic vertex coordinates: ~7 min
+                chain_a.append(("C08_measure_thorough.v", "C08_subparam.v"))
+            with ThreadPoolExecutor(max_workers=2) as ex:
+                list(ex.map(chain, chains))
     ctx.sample({"theorem": "face_tables_close : forall t, In t all_ftabs -> fdim t = 3 -> forall l, sum of area vectors = 0 /\\ sum of 2*flux = 6 * measure_star (parent)",
                 "proof": "vm_compute on the regenerated tables through Qnorm_sound"})
     # ---- 4. violations --------------------------------------------------------------------------
